@@ -55,7 +55,7 @@ def main_stream(fs):
     append_only = True
     nwrites = 0
     for (_, path, hid, mode, op, off, ln, data, th) in fs.apilog:
-        if path != OUT or not mode.startswith('w'):
+        if not mode.startswith('w'):       # every handle opened for writing from scratch, on any path
             continue
         if op == 'write':
             nwrites += 1
@@ -94,13 +94,13 @@ def judge(spec, ref, fs, r):
         first = next((i for i in range(n) if img[i] != ref['image'][i]), n)
         return 'oracle2:bytes', (f'file at return differs from sequential reference: len {len(img)} vs '
                                  f'{len(ref["image"])}, first difference at byte {first}')
-    late = [e for e in fs.apilog if e[0] > r.seq_at_return and e[1] == OUT and e[4] in ('write', 'flush', 'seek')]
-    late_os = [e for e in fs.oslog if e[0] > r.seq_at_return and e[1] == OUT]
+    late = [e for e in fs.apilog if e[0] > r.seq_at_return and e[4] in ('write', 'flush', 'seek', 'truncate')]
+    late_os = [e for e in fs.oslog if e[0] > r.seq_at_return]
     if late or late_os or fs.image(OUT) != ref['image']:
         what = [(e[4], e[5], e[6], e[8]) for e in late][:3] + [('os', e[3], e[4], len(e[5]), e[6]) for e in late_os][:3]
         return 'oracle4:late_write', f'file touched after run() returned: {what}'
     stream, append_only, _ = main_stream(fs)
-    if not append_only:
+    if ref['append_only'] and not append_only:
         return 'oracle3:not_append_only', 'main handle was not written strictly front to back'
     if stream != ref['stream']:
         return 'oracle3:stream', 'byte stream on the main handle differs from the reference stream'
